@@ -154,6 +154,7 @@ def body_trs_regularised(E, n):
     def sfista(xopt, g, H, projections, delta, h, L_h, prox_uh, **kw):
         return dstub.copy(), E.vec('gS', n), E.real('crv')
     E.patch('ctrsbox_sfista', sfista)
+    E.hooks(la=lambda name, args, kw: E.real('normH', lo=0) if name == 'norm2' else NotImplemented)   # spectral norm of H: LAPACK-level for n >= 2
     d, gopt, H, gnew, crvmin = C.trust_region_step(params, E.real('crit', npy=False, lo=0))
     x = M.xopt(abs_coordinates=True)
     pred = M.h(x) - (np.dot(d, gopt + E.const('0.5') * np.dot(H, d)) + M.h(x + d))
